@@ -13,6 +13,7 @@ import RubyTi.Model.Match
 import RubyTi.Model.Unify
 import RubyTi.Model.Ret
 import RubyTi.Model.Narrow
+import RubyTi.Model.Propagate
 
 /-! Line-protocol driver over the executable model definitions (core-only, built as `lean_exe`).
 One op per input line, one answer line per op; the answer format is the one
@@ -367,6 +368,28 @@ def opNarrow (args : String) : String :=
     " / ".intercalate r.2.2
   | _ => "BAD-ARGS"
 
+def opProp (args : String) : String :=
+  match args.splitOn " | " with
+  | [init, steps] =>
+    let i := init.trimAscii.toString
+    let slot0 : Option Propagate.Slot :=
+      if i == "-" then none
+      else
+        let t := nestedT (i.drop 2).toString
+        some { t := if i.startsWith "D" then t.setFl (fun f => { f with hasDefault := true }) else t, round := [] }
+    let b (x : Bool) := if x then "1" else "0"
+    let r := ((steps.splitOn ";").filter (fun s => s.trimAscii.toString != "")).foldl (fun (acc : Option Propagate.Slot × List String) st =>
+      match st.trimAscii.toString.splitOn ":" with
+      | round :: rest =>
+        let (slot', ret) := Propagate.propagate round.toList acc.1 (nestedT (":".intercalate rest))
+        let line := match slot' with
+          | none => b ret ++ "--::nil"
+          | some s => b ret ++ b s.t.fl.hasDefault ++ b s.t.fl.isInferredFromCall ++ ":" ++ String.ofList s.round ++ ":" ++ Unify.typeToString FUEL s.t
+        (slot', acc.2 ++ [line])
+      | _ => acc) (slot0, [])
+    " / ".intercalate r.2
+  | _ => "BAD-ARGS"
+
 def rbsParam (s : String) : Rbs.Param :=
   if s == "_" then none else some (((s.splitOn ",").filter (· != "")).map String.toList)
 
@@ -425,6 +448,7 @@ def dispatch (line : String) : String :=
   else if name == "suggest" then opSuggest args
   else if name == "lookup" then opLookup args
   else if name == "match" then opMatch args
+  else if name == "prop" then opProp args
   else if name == "narrow" then opNarrow args
   else if name == "ret" then opRet args
   else if name == "appendv" then opAppendV args
